@@ -4,7 +4,7 @@
 (2) exhaustive n=12 / n=16 incl. negative and over-wide inputs, boundary+random n=32,
 (3) tables: a shadow of written byte addresses (wrappers on the backing Memory's public write_*/reset) decides
     which rows the data-memory table must list; values are parsed back and compared with the backing store."""
-from ..common import rng_for, h64, make_riscv, install_program, set_regs, preload_mem, real_regs, M32
+from ..common import guarded, rng_for, h64, make_riscv, install_program, set_regs, preload_mem, real_regs, M32
 from ..refmodels.numfmt import check_repr
 from ..gen import progs as G
 
@@ -260,7 +260,7 @@ def run_shard(spec, res):
             case = T.gen_prog_case(rng)
             case["kind"] = "toy"
             case["max_steps"] = 60
-        run_case("C17", case, res)
+        guarded(run_case, "C17", case, res)
         res.evaluations += 1
         if it < 1:
             res.sample(case, 4)
